@@ -21,7 +21,7 @@ CONSTANTS KeySets,       \* key lists the server may hold (all contain the clien
 ClientAll == {"CH2ok", "CH2noEch", "CH2cid", "CH2suite", "CH2enc", "CH2undec", "CH2sni", "CH2alpn", "CH2outerSni", "CH2innerType",
               "CH2no13", "CH2again", "CCS", "HSother", "ALERT", "APP", "ZERO", "ZEROAPP"}
 \* backend records
-BackendAll == {"SH", "HRR", "CCS", "HSother", "APP", "SHbad", "ZERO"}
+BackendAll == {"SH", "HRR", "CCS", "HSother", "APP", "SHbad", "ZERO", "ZEROAPP"}
 
 IsCH(s) == s \in {"CH2ok", "CH2noEch", "CH2cid", "CH2suite", "CH2enc", "CH2undec", "CH2sni", "CH2alpn", "CH2outerSni", "CH2innerType", "CH2no13", "CH2again"}
 
@@ -83,7 +83,7 @@ Write(s) ==
   /\ wDead' = (~wPass /\ s = "SHbad")       \* the spec is silent about writes after a failed one
   /\ IF wPass THEN
         /\ Log(<<"w", s>>, <<"fwd">>) /\ UNCHANGED <<wPass, retry>>
-     ELSE IF s = "APP" THEN
+     ELSE IF s \in {"APP", "ZEROAPP"} THEN                                  \* application data of any length, empty included
         /\ wPass' = TRUE /\ Log(<<"w", s>>, <<"fwd">>) /\ UNCHANGED retry
      ELSE IF s = "HRR" THEN
         /\ wPass' = TRUE /\ retry' = retry + 1 /\ Log(<<"w", s>>, <<"fwd">>)
@@ -107,7 +107,7 @@ ArmedOnlyByHRR == [][ retry' > retry => (\E i \in DOMAIN hist' : hist'[i] = <<"w
 AtMostOneRetry == seq <= 2 /\ retry <= 1
 StickyPassthrough == [][ (rPass => rPass') /\ (wPass => wPass') ]_vars
 AppDataStopsInspection == [][ /\ (Len(hist') > Len(hist) /\ hist'[Len(hist')] \in {<<"r", "APP">>, <<"r", "ZEROAPP">>} => rPass')
-                              /\ (Len(hist') > Len(hist) /\ hist'[Len(hist')] = <<"w", "APP">> => wPass') ]_vars
+                              /\ (Len(hist') > Len(hist) /\ hist'[Len(hist')] \in {<<"w", "APP">>, <<"w", "ZEROAPP">>} => wPass') ]_vars
 \* a connection whose ECH was not accepted is a pure pipe (C05 at Conn level)
 NotAcceptedNeverAborts == ~accepted => st = "ok" /\ \A i \in DOMAIN outs : outs[i] = <<"fwd">>
 \* a replaced hello only directly in answer to a HelloRetryRequest
